@@ -141,6 +141,15 @@ Definition fpoint_intersects_polygon (x y : float) (values : list float) (offs :
   if negb (fisfinite x || fisfinite y) then false
   else negb (fwinding_number x y values offs =? 0)%Z.
 
+(* ---- spatialpandas/geometry/point.py: Point._intersects_polygon(polygon) and, per point,
+   PointArray._intersects_polygon(polygon, inds): the wrappers of the kernel.
+   [values] = polygon.buffer_values, [offs] = polygon.buffer_inner_offsets.
+     if not np.isfinite(polygon.buffer_values).any(): return False   (zeros for the array)
+   (a polygon without any finite coordinate is empty: it holds no point) ---- *)
+Definition fpolygon_intersects (x y : float) (values : list float) (offs : list nat) : bool :=
+  if negb (existsb fisfinite values) then false
+  else fpoint_intersects_polygon x y values offs.
+
 (* ---- compute_area(values, value_offsets), float64 values ---- *)
 
 (* unchecked read values[i] (the harness only reads in range) *)
@@ -212,5 +221,9 @@ Definition run_si (l : list (float * float * float * float * float * float * flo
 Definition run_pip (c : list float * list nat * list (float * float)) : list bool :=
   let '(vals, offs, pts) := c in
   map (fun '(x, y) => fpoint_intersects_polygon x y vals offs) pts.
+(* one polygon through the wrapper, many points *)
+Definition run_pipw (c : list float * list nat * list (float * float)) : list bool :=
+  let '(vals, offs, pts) := c in
+  map (fun '(x, y) => fpolygon_intersects x y vals offs) pts.
 Definition run_area (l : list (list float * list nat)) : list (Z * Z * Z) :=
   map (fun '(vals, offs) => fkey (fcompute_area vals offs)) l.
